@@ -92,12 +92,15 @@ void RSModel::ResetAliases() {
 }
 
 bool RSModel::Erase(const EntityUID target) {
+  // Note: dependants are collected before erasing because target is removed from the graph
+  auto dependants = core.RSLang().Graph().ExpandOutputs({ target });
+  dependants.erase(target);
   if (!core.Erase(target)) {
     return false;
   } else {
     dataFacet->Erase(target);
     calulatorFacet->Erase(target);
-    ResetDependants(target);
+    ResetValuesFor(dependants);
     NotifyModification();
     return true;
   }
@@ -135,10 +138,14 @@ bool RSModel::SetConventionFor(const EntityUID target, const std::string& conven
 }
 
 void RSModel::ResetDependants(const EntityUID target) {
-  for (const auto dependant : core.RSLang().Graph().ExpandOutputs({ target })) {
-    if (const auto type = core.GetRS(dependant).type;
-        dependant != target &&
-        !IsBaseSet(type)) {
+  auto dependants = core.RSLang().Graph().ExpandOutputs({ target });
+  dependants.erase(target);
+  ResetValuesFor(dependants);
+}
+
+void RSModel::ResetValuesFor(const SetOfEntities& entities) {
+  for (const auto dependant : entities) {
+    if (const auto type = core.GetRS(dependant).type; !IsBaseSet(type)) {
       if (type == CstType::structured) {
         Values().PruneStructure(dependant);
       } else {
